@@ -522,8 +522,6 @@ def gen_record(rec, sib):
     if name in ('cinc', 'cinv', 'cneg'):
         ci = [k for k, o in enumerate(ops) if o.kind == 'imm'][0]
         L.append('#if KF_C02F'); L.append('      V_ASSUME(o%d_v != 16);' % ci); L.append('#endif')
-    if name in ('ldrsb', 'ldrsh') and any(o.kind == 'mem' and o.mode == 'imm' and o.wb in ('pre', 'post') for o in ops):
-        L.append('#if KF_C02C'); L.append('      V_ASSUME(false);'); L.append('#endif')
     if name in ('tbl', 'tbx'):
         raise Skip('tbl/tbx register lists (hand-written harness)')
     for a in g.assume: L.append('      V_ASSUME(%s);' % a)
@@ -626,9 +624,6 @@ def main():
             if note not in ERRATA_NOTES: ERRATA_NOTES.append(note)
         rc['op'] = op; rc['tfix'] = t
         if rc['name'] == 'mov' and rc['cat'] == 'GP': skip(rc, 'mov aliases (hand-written harnesses h_mov_reg / h_mov_imm)'); continue
-        if rc['name'] in ('ldrsb', 'ldrsh') and re.search(r'\](!|@)$', rc['opstr']): skip(rc, 'known finding C02C: every accepted input is mis-encoded (companion h_ldst_kf_C02C)'); continue
-        if rc['name'] in ('sqdmulh', 'sqrdmulh', 'sqrdmlah', 'sqrdmlsh') and re.match(r'^[HS][dx], [HS]n, Vm\.', rc['opstr']): skip(rc, 'known finding C02N: every accepted input is mis-encoded (companion h_simd_kf_C02N)'); continue
-        if rc['name'] == 'xar': skip(rc, 'known finding C02O: every accepted input is mis-encoded (companion h_simd_kf_C02O)'); continue
         try:
             rc['mask'], rc['val'], rc['pieces'] = parse_template(op)
             toks = split_ops(rc['opstr'])
@@ -678,8 +673,43 @@ def main():
     if cur: harnesses.append(cur)
     files = []
     for old in os.listdir(HERE):
-        if re.fullmatch(r'h_forms_\d+\.cpp', old): os.remove(os.path.join(HERE, old))
+        if re.fullmatch(r'h_forms_(\d+|rep)\.cpp', old): os.remove(os.path.join(HERE, old))
     index = []
+    # ---- class representatives: one record per (AsmJit encoding class, operand shape, field layout). They form the unit that
+    # the quick tier always runs, so that every case of the switch in _emit has at least one DB-checked form in every run.
+    enc_of = dict(re.findall(r'INST\((\w+)\s*,\s*(\w+)\s*,', open(os.path.join(REPO, 'asmjit', 'arm', 'a64instdb.cpp')).read()))
+    def shape(rc):
+        # coarse on purpose (register width, scalar size and the concrete arrangement do not select another code path)
+        sh = []
+        for o in rc['ops']:
+            k = o.kind
+            if k == 've': sh.append((k, o.el, o.n > 1))
+            elif k == 'vlist': sh.append((k,))
+            elif k == 'mem': sh.append((k, o.mode, getattr(o, 'wb', '')))
+            elif k == 'imm': sh.append((k, o.name))
+            elif k == 'gp': sh.append((k, o.sp))
+            else: sh.append((k,))
+        narrow = tuple(sorted(p[0] for p in rc['pieces'] if p[0][0] in 'RV' and p[2] < 5))
+        return (enc_of.get(rc['iid'], '?'), tuple(sh), narrow)
+    reps = {}
+    for rc in out_cases: reps.setdefault(shape(rc), rc)
+    rep_list = list(reps.values())
+    rep_index = []
+    if rep_list:
+        L = ['// GENERATED by gen_forms.py - do not edit. Class representatives: one DB record per (AsmJit encoding class, operand shape, field layout).',
+             '#include "c02_common.h"', 'using namespace a64;', '']
+        for hi in range(0, len(rep_list), RECS_PER_HARNESS):
+            grp = rep_list[hi:hi + RECS_PER_HARNESS]
+            hname = 'h_rep%03d_%s' % (hi // RECS_PER_HARNESS, re.sub(r'\W', '_', grp[0]['name']))
+            L.append('HARNESS %s() {' % hname)
+            L.append('  Res r; uint32_t sel = nondet_u8() %% %d;' % len(grp))
+            L.append('  switch (sel) {')
+            for k, rc in enumerate(grp):
+                rc['case'] = k
+                L += gen_record(rc, make_sib(rc))
+            L.append('  }'); L.append('}'); L.append('')
+            rep_index.append(('h_forms_rep.cpp', hname, ['%s %s' % (rc['name'], rc['opstr']) for rc in grp]))
+        open(os.path.join(HERE, 'h_forms_rep.cpp'), 'w').write('\n'.join(L))
     for fi in range(0, len(harnesses), HARNESS_PER_FILE):
         fn = 'h_forms_%02d.cpp' % (fi // HARNESS_PER_FILE)
         L = ['// GENERATED by gen_forms.py from db/isa_aarch64.json - do not edit. See gen_forms.py for the field semantics.',
@@ -702,12 +732,14 @@ def main():
         f.write('FILES = %r\n' % files)
         f.write('HARNESSES = [\n')
         for fn, hname, rl in index: f.write('  (%r, %r, %r),\n' % (fn, hname, rl))
+        f.write(']\nREP_HARNESSES = [\n')
+        for fn, hname, rl in rep_index: f.write('  (%r, %r, %r),\n' % (fn, hname, rl))
         f.write(']\nSKIPPED = [\n')
         for why, n in skipped.most_common(): f.write('  (%d, %r, %r),\n' % (n, why, skipped_ex[why]))
         f.write(']\nN_ERRATA = %d\nERRATA = %r\n' % (n_errata[0], ERRATA_NOTES))
     if os.environ.get('C02_RIDS'):
         json.dump({str(rc['rid']): [rc['name'], rc['opstr'], rc.get('op', rc['r']['op']), rc['r'].get('t') or rc['r'].get('ta.tb') or ''] for rc in recs}, open(os.environ['C02_RIDS'], 'w'))
-    print('db records %d, A64 %d, forms %d, generated %d in %d harnesses / %d files' % (n_db, n_arch, n_named, len(out_cases), len(harnesses), len(files)))
+    print('db records %d, A64 %d, forms %d, generated %d in %d harnesses / %d files; %d representatives of %d encoding classes in %d harnesses' % (n_db, n_arch, n_named, len(out_cases), len(harnesses), len(files), len(rep_list), len(set(k[0] for k in reps)), len(rep_index)))
     for why, n in skipped.most_common(40): print('  skipped %4d  %s   e.g. %s' % (n, why, skipped_ex[why]))
 
 if __name__ == '__main__':
